@@ -22,6 +22,8 @@ func ruleC02(prog *Program, rep *Report) {
 	ruleBigLimitAgree(prog, rep)
 	ruleFillOnce(prog, rep)
 	ruleArmTwinsAll(prog, rep, false)                                                                                // counters and cursors the exploration keeps abstract
+	ruleBOM(prog, rep)                                                                                               // bytes dropped before the dispatch loop sees them change the values
+	ruleCursorAdvance(prog, rep)                                                                                     // with Reuse, a recycled map handed out twice makes two objects of a document one value
 	ruleRestore(prog, rep)                                                                                           // a number-conversion option overwritten for one call (Unmarshal forces floats) and not put back changes what later parses return
 	rulePoolPut(prog, rep, "oj.Parser", "gen.Parser", "sen.Parser", "oj.Tokenizer", "oj.Validator", "sen.Tokenizer") // a parser put back before its last use mixes two callers' documents
 	rep.Rules = append(rep.Rules, "A-events: value/token events of the four JSON front-ends agree with the reference at every byte (kind of each value: null/true/false/string/number/container, key vs value) - see C03")
@@ -769,6 +771,9 @@ func ruleBigLimitAgree(prog *Program, rep *Report) {
 			switch {
 			case strings.HasSuffix(s, "BigLimit"):
 				return "BigLimit"
+			case strings.Contains(s, "BigLimit"):
+				// an expression over the limit (BigLimit/10): another limit, kept as text so that it disagrees
+				return "BigLimit~" + strings.ReplaceAll(strings.ReplaceAll(s, "gen.", ""), " ", "")
 			case strings.HasSuffix(s, ".I"):
 				return "I"
 			case strings.HasSuffix(s, ".Div"):
@@ -786,6 +791,14 @@ func ruleBigLimitAgree(prog *Program, rep *Report) {
 		case r == "BigLimit" && (l == "I" || l == "Div"):
 			if _, ok := flip[be.Op]; ok {
 				return l, be.Op, true
+			}
+		case strings.HasPrefix(l, "BigLimit~") && (r == "I" || r == "Div"):
+			if f, ok := flip[be.Op]; ok {
+				return r + "@" + l[9:], f, true
+			}
+		case strings.HasPrefix(r, "BigLimit~") && (l == "I" || l == "Div"):
+			if _, ok := flip[be.Op]; ok {
+				return l + "@" + r[9:], be.Op, true
 			}
 		}
 		return "", 0, false
@@ -806,7 +819,11 @@ func ruleBigLimitAgree(prog *Program, rep *Report) {
 						return true
 					}
 					if fld, rel, ok := norm(cc.List[0]); ok {
-						ref[fld] = "pre:" + fld + rel.String() + "BigLimit"
+						if i := strings.Index(fld, "@"); i >= 0 {
+							ref[fld[:i]] = "pre:" + fld[:i] + rel.String() + fld[i+1:] // a scaled limit: disagrees with every loop that uses BigLimit
+						} else {
+							ref[fld] = "pre:" + fld + rel.String() + "BigLimit"
+						}
 					}
 					return true
 				})
